@@ -19,13 +19,15 @@ def table : List (String × Out) := [
   ("/index.html",  ⟨200, 0, 60, .full, false, false, none⟩),
   ("/d/index.html",⟨200, 0, 60, .queryMatters, false, false, none⟩),
   ("/almost",      ⟨200, 0, 4194303, .full, false, false, none⟩),
-  ("/stream",      ⟨200, 0, 60, .full, true, false, none⟩)]
+  ("/stream",      ⟨200, 0, 60, .full, true, false, none⟩),
+  -- the preference depends on the request: QueryMatters for `?x=1`, Full otherwise (see `step`)
+  ("/mix",         ⟨200, 0, 60, .full, false, false, none⟩)]
 
 def queries : List (Option Bytes) := [none, some [], some (b "x=1"), some (b "x=2")]
 
 structure St where
   store : Store := []
-  counters : List Nat := List.replicate 13 0
+  counters : List Nat := List.replicate 14 0
 
 def BASE : Nat := 100000000
 
@@ -35,11 +37,12 @@ def step (cfg : Cfg) (st : St) (ev : String) : Option (St × Option String) :=
   | "R" :: t :: m :: p :: q :: ims :: _variant => do
     let now := BASE + (← t.toNat?)
     let pi ← p.toNat?
-    let (path, tmpl) ← table[pi]?
+    let (path, tmpl0) ← table[pi]?
     let query ← queries[← q.toNat?]?
+    let tmpl : Out := if path = "/mix" && query == some (b "x=1") then { tmpl0 with pref := .queryMatters } else tmpl0
     let cnt := st.counters.getD pi 0
     let imsS : Option Nat := if ims = "new" then some (now / 1000) else if ims = "old" then some (now / 1000 - 10) else none
-    let r : Req := { getOrHead := m != "P", path := b path, query := query, sanitizeOk := true, imsS := imsS }
+    let r : Req := { getOrHead := m == "G" || m == "H", path := b path, query := query, sanitizeOk := true, imsS := imsS }
     let (s', rep) := handle cfg st.store now r { tmpl with body := cnt }
     match rep with
     | .notModified => pure ({ st with store := s' }, some "304")
